@@ -3,6 +3,7 @@ use crate::Check;
 pub mod c02;
 pub mod c05;
 pub mod c11;
+pub mod c14;
 pub mod c15;
 
 pub fn get(id: &str) -> Option<Box<dyn Check>> {
@@ -10,6 +11,7 @@ pub fn get(id: &str) -> Option<Box<dyn Check>> {
         "C02" => Some(Box::new(c02::C02)),
         "C11" => Some(Box::new(c11::C11)),
         "C15" => Some(Box::new(c15::C15)),
+        "C14" => Some(Box::new(c14::C14)),
         "C05" => Some(Box::new(c05::C05)),
         _ => None,
     }
